@@ -31,7 +31,7 @@ def gen_case(rng, infos, ci):
         "deleted": sorted(rng.sample(range(len(funcs)), rng.randrange(1, min(4, len(funcs)) + 1))) if rng.random() < 0.3 else [],
         "predecessor": rng.choice([None, None, "complete", "with-removals"]),
         # the device swallows the first k commands it receives after connecting (a receiver waking up)
-        "swallow": rng.choice([0, 0, 0, 1, 2]),
+        "swallow": rng.choice([0, 0, 0, 1, 2]) if cid != "SYS" else rng.choice([0, 1, 2, 2]),
     }
 
 
